@@ -274,7 +274,7 @@ func ruleC06(w *World, r *Report) {
 	r.Explanation = "R06.1 must-lockset: every access to IPPool.freePool / IPPool.inventory (outside the constructor's fresh object) holds IPPool.mu, exclusively for writes, and the mutex is the accessed object's own; LK.balanced for the pool's methods; R06.2 atomic sections: a pool write that depends on a pool read made under an earlier acquisition re-reads that field (no check-then-act across an unlock); R06.3 encapsulation: pool state is touched only by IPPool's methods and NewIPPool, upf.ippool is assigned once at start-up; " +
 		"R06.4 constructor shape: the list is the ordered, complete enumeration of the CIDR (start ip.Mask(mask), while Contains, inc) of private copies, a size check dominates the trim, the stored pool is list[1:len-1] (first = network, last = broadcast); LookupOrAllocIP: sticky (inventory hit returns it), refusal only on an empty pool, dequeues the head and records it under the same key, hands out a copy; DeallocIP returns exactly the session's recorded address and forgets it; " +
 		"R06.5 allocation trigger table (needAllocIP over all 256 flag values) and its use; R06.6 the deletion handler releases the address only after the datapath delete was accepted."
-	r.Explanation += " R06.7 the per-connection local-SEID generator is seeded from a source that differs between connections created together (nanosecond clock / crypto), because the shared pool is keyed by local SEID."
+	r.Explanation += " R06.7 the per-connection local-SEID generator is seeded from a source that differs between connections created together (nanosecond clock / crypto), because the shared pool is keyed by local SEID. R06.8 conservation across modifications: C05 R05.7, R05.10, R05.11 re-filed."
 	r.NotDecided = "in-range / exclusive / conserved as invariants over the runtime contents of the two containers (they follow from R06.1–R06.4 by an induction this checker does not mechanise); the carry arithmetic of inc()"
 
 	pool := map[string]bool{"freePool": true, "inventory": true}
@@ -316,6 +316,12 @@ func ruleC06(w *World, r *Report) {
 	ruleC06Trigger(w, r)
 	ruleC06Release(w, r)
 	ruleC06SeidEntropy(w, r)
+	// R06.8 "conserved": the address a session was given goes back to the pool when the session ends, whatever
+	// modifications preceded (shared with C05 R05.7, R05.10, R05.11)
+	r.withRule("R06.8", func() {
+		ruleOwnershipMarksSurvive(w, r, "C06", "R05.7")
+		ruleC05Residual(w, r, "C06", true)
+	})
 }
 
 func ruleC06Ctor(w *World, r *Report) {
